@@ -8,7 +8,7 @@ from sa.rules import exh
 BOUNDED = ('TimedOnce', 'TimedHistorically', 'TimedSince', 'TimedAlways', 'TimedEventually', 'TimedUntil', 'TimedPrecedes')
 
 
-def _report(rep, f, sym, slot, cases, it, name, rule='R-WINDOW'):
+def _report(rep, f, sym, slot, cases, it, name, rule='R-WINDOW', which=('R-WINDOW', 'R-INDEX')):
     ref = W.reference(name)
     bad = None
     for facts, term in cases:
@@ -17,7 +17,9 @@ def _report(rep, f, sym, slot, cases, it, name, rule='R-WINDOW'):
         if a != b:
             bad = (a, b)
             break
-    if bad:
+    if 'R-WINDOW' not in which:
+        pass
+    elif bad:
         rep.fail(rule, f.module.rel, sym, slot, 'the window of %s is  %s  but the semantics requires  %s  (a = begin, b = end in samples; offsets relative to the '
                  'evaluated sample; low/high = value used before the first / after the last sample)' % (name, W.show(bad[0]), W.show(bad[1])), f.node.lineno,
                  {'got': W.show(bad[0]), 'want': W.show(bad[1])})
@@ -25,6 +27,8 @@ def _report(rep, f, sym, slot, cases, it, name, rule='R-WINDOW'):
         rep.ok(rule, f.module.rel, sym, slot, '%s  (%d case%s)' % (W.show(W.simplify_under(ref, cases[0][0])), len(cases), '' if len(cases) == 1 else 's'), f.node.lineno)
     seen = set()
     nob = 0
+    if 'R-INDEX' not in which:
+        return bad is None
     for (text, ok, line) in it.obligations:
         nob += 1
         if not ok and text not in seen:
@@ -46,7 +50,7 @@ def _merge_interps(its):
     return its[0] if len(its) == 1 else _Merged(its)
 
 
-def check_offline(ix, rep, mon):
+def check_offline(ix, rep, mon, which=('R-WINDOW', 'R-INDEX')):
     d = D.dispatch_of(ix, mon.cls)
     out = {}
     n = 0
@@ -69,11 +73,11 @@ def check_offline(ix, rep, mon):
             continue
         n += 1
         out[nc.name] = cases
-        _report(rep, f, f.qual, slot, cases, it, nc.name)
+        _report(rep, f, f.qual, slot, cases, it, nc.name, which=which)
     return n, out
 
 
-def check_online(ix, rep, mon):
+def check_online(ix, rep, mon, which=('R-WINDOW', 'R-INDEX')):
     ops = exh.constructed_operations(ix, mon)
     out = {}
     n = 0
@@ -92,5 +96,5 @@ def check_online(ix, rep, mon):
         n += 1
         out[name] = runs[0][1][0]
         cases = [(i2.facts + [W.Aff.sym('t'), W.Aff.sym('n') - W.Aff.const(1) - W.Aff.sym('t')], term) for _fx, (term, i2) in runs]
-        _report(rep, f, '%s.update' % cls.name, slot, cases, _merge_interps([r[1] for _fx, r in runs]), name)
+        _report(rep, f, '%s.update' % cls.name, slot, cases, _merge_interps([r[1] for _fx, r in runs]), name, which=which)
     return n, out
